@@ -645,6 +645,9 @@ impl TimeoutLimit {
 // TRUSTED: format!("{}{}", consts::IS_TIMEOUT_PROCESSED_PREFIX, on) (R7)
 #[verifier::external_body]
 pub fn timeout_key(on: &String) -> (r: String) ensures r@ == consts::IS_TIMEOUT_PROCESSED_PREFIX@ + on@ { unimplemented!() }
+// TRUSTED: Vec<String>::contains(&s) (R7)
+#[verifier::external_body]
+pub fn vec_has(v: &Vec<String>, s: &str) -> (r: bool) ensures r == (exists|k: int| 0 <= k < v@.len() && #[trigger] v@[k]@ == s@) { unimplemented!() }
 // TRUSTED: `&String == &String` compares the characters (R7)
 #[verifier::external_body]
 pub fn str_eq(a: &String, b: &String) -> (r: bool) ensures r == (a@ == b@) { unimplemented!() }
